@@ -1216,6 +1216,7 @@ class SyncInterpreter(BaseInterpreter[TContext, TEvent]):
         action_def: ActionDefinition,
         event: Event,
         on_complete: Optional[str] = None,
+        owner_id: Optional[str] = None,
     ) -> None:
         """Spawns a child state machine actor in blocking or non-blocking mode.
 
@@ -1228,12 +1229,21 @@ class SyncInterpreter(BaseInterpreter[TContext, TEvent]):
                 `onDone`. Spawning alone never signalled completion, so a
                 parent waited forever even when the child finished
                 immediately.
+            owner_id: Id of the invoking state. Its activation at spawn time
+                is stamped on the completion event, so a child that finishes
+                after its state was left and re-entered does not drive the
+                new activation's `onDone`.
 
         Raises:
             ActorSpawningError: If the specified service is not a valid
                 `MachineNode` or a factory that returns one.
         """
         # 🕵️ Determine mode (blocking vs. non-blocking) and service key
+        activation = (
+            (owner_id, self._activation_serial.get(owner_id, 0))
+            if owner_id is not None
+            else None
+        )
         blocking = action_def.type.startswith("spawn_blocking_")
         key = spawn_service_key(action_def.type)
         logger.info("🎭 Spawning actor '%s' (Blocking: %s)", key, blocking)
@@ -1289,7 +1299,7 @@ class SyncInterpreter(BaseInterpreter[TContext, TEvent]):
         if blocking:
             child.start()
             if on_complete is not None:
-                self._queue_actor_done(child, on_complete)
+                self._queue_actor_done(child, on_complete, activation)
             return
 
         # --- Non-Blocking Execution Path (via a background thread) ---
@@ -1315,7 +1325,7 @@ class SyncInterpreter(BaseInterpreter[TContext, TEvent]):
             finally:
                 # 🧹 Ensure cleanup happens whether the child finishes or is stopped.
                 if on_complete is not None:
-                    self._queue_actor_done(child, on_complete)
+                    self._queue_actor_done(child, on_complete, activation)
                 child.stop()
                 # 🧹 Only forget OUR child. After `stopChild(id)` the same id
                 #    may already name a newly spawned actor; popping by id
@@ -1338,7 +1348,10 @@ class SyncInterpreter(BaseInterpreter[TContext, TEvent]):
         ).start()
 
     def _queue_actor_done(
-        self, child: "SyncInterpreter", invoke_id: str
+        self,
+        child: "SyncInterpreter",
+        invoke_id: str,
+        activation: Optional[Tuple[str, int]] = None,
     ) -> None:
         """Queues `done.invoke.<id>` for a completed child machine.
 
@@ -1349,6 +1362,7 @@ class SyncInterpreter(BaseInterpreter[TContext, TEvent]):
         Args:
             child: The spawned child interpreter.
             invoke_id: The `invoke` id to report completion under.
+            activation: The invoking state's activation at spawn time.
         """
         reached_final = any(
             node.is_final and node.parent is child.machine
@@ -1366,6 +1380,9 @@ class SyncInterpreter(BaseInterpreter[TContext, TEvent]):
             data=child.context,
             src=invoke_id,
         )
+        if activation is not None:
+            done_event = self._stamp_activation(done_event, activation[0])
+            done_event.activation = activation
         logger.info("🏁 Child actor '%s' completed; firing onDone.", child.id)
         self.send(done_event)
 
@@ -1532,6 +1549,7 @@ class SyncInterpreter(BaseInterpreter[TContext, TEvent]):
                 ),
                 Event(type=f"invoke.{invocation.id}"),
                 on_complete=invocation.id,
+                owner_id=owner_id,
             )
             # 🔗 The child lives exactly as long as the invoking state.
             self._invoked_actor_ids.setdefault(owner_id, []).append(
